@@ -55,6 +55,19 @@ def _wide(ctx, prop, violations, cov, quick):
                 violations.append(v)
     cov["wide_documents"] = len(wrecs)
 
+    def flip(rec):
+        if prop == "C08" and rec["tail"] == "ok" and rec["limit"] == 0 and rec["cls"] == "json":
+            rec["cls"] = ""
+            return True
+        if prop == "C09" and rec["tail"] == "dcomma" and rec["limit"] == 0 and rec["cls"] == "":
+            rec["cls"] = "json"
+            return True
+        if prop == "C10" and rec["tail"] == "geo" and rec["limit"] == 0 and rec["cls"] == "geo":
+            rec["cls"] = "json"
+            return True
+        return False
+    cov["wide_binding_selftest"] = core.binding_selftest(ctx, "TraceWide.tla", "TraceWide.cfg", wtf, flip, prop, "the class of one wide document is logged wrongly")
+
 
 def run_json(ctx, prop):
     quick = ctx.tier == "quick"
@@ -82,7 +95,24 @@ def run_json(ctx, prop):
     ctx.vdrive(["jsontrace", "-outdir", tdir, "-docs", 300 if quick else 6000, "-seed", ctx.seed, "-out", trep_path,
                 "-shards", core.NCPU, "-parse-every", 8 if quick else 16])
     trep = ctx.report(trep_path)
-    results = ctx.validate_traces("TraceJson.tla", "TraceJson.cfg", sorted(glob.glob(os.path.join(tdir, "*.ndjson"))))
+    jfiles = sorted(glob.glob(os.path.join(tdir, "*.ndjson")))
+    results = ctx.validate_traces("TraceJson.tla", "TraceJson.cfg", jfiles)
+
+    def flipcls(rec):      # a whole, well-formed document logged as not JSON (C08) / a detected class logged as another (C09, C10)
+        if rec.get("ev") != "detect" or rec.get("exempt") or rec["limit"] != 0:
+            return False
+        if prop == "C08" and rec["cls"] == "json":
+            rec["cls"] = ""
+            return True
+        if prop == "C09" and rec["cls"] == "" and rec["raw"][:1] not in ([91], [123]) and 91 not in rec["raw"] and 123 not in rec["raw"]:
+            rec["cls"] = "json"
+            return True
+        if prop == "C10" and rec["cls"] == "json":
+            rec["cls"] = "geo"
+            return True
+        return False
+    json_selftest = core.binding_selftest(ctx, "TraceJson.tla", "TraceJson.cfg", jfiles[0], flipcls, prop, "the class of one detection is logged wrongly")
+    cov["json_binding_selftest"] = json_selftest
     tviol, tdrift = _trace_violations(ctx, results, prop)
     violations = [x for x in rep["violations"] if x["property"] == prop] + tviol + [x for x in trep["violations"] if x["property"] == prop]
     # documents nested up to the cap (objects, arrays, mixed), whole and truncated: run-length form, TraceBomb.tla
@@ -170,12 +200,29 @@ def c10(ctx):
     ctx.vdrive(["jsontrace", "-outdir", tdir, "-docs", 600 if quick else 12000, "-seed", ctx.seed + 1000, "-out", trep_path,
                 "-shards", core.NCPU, "-parse-every", 8 if quick else 16, "-subtype-only"])
     trep = ctx.report(trep_path)
-    results = ctx.validate_traces("TraceJson.tla", "TraceJson.cfg", sorted(glob.glob(os.path.join(tdir, "*.ndjson"))))
+    jfiles = sorted(glob.glob(os.path.join(tdir, "*.ndjson")))
+    results = ctx.validate_traces("TraceJson.tla", "TraceJson.cfg", jfiles)
+
+    def flipcls(rec):      # a whole, well-formed document logged as not JSON (C08) / a detected class logged as another (C09, C10)
+        if rec.get("ev") != "detect" or rec.get("exempt") or rec["limit"] != 0:
+            return False
+        if prop == "C08" and rec["cls"] == "json":
+            rec["cls"] = ""
+            return True
+        if prop == "C09" and rec["cls"] == "" and rec["raw"][:1] not in ([91], [123]) and 91 not in rec["raw"] and 123 not in rec["raw"]:
+            rec["cls"] = "json"
+            return True
+        if prop == "C10" and rec["cls"] == "json":
+            rec["cls"] = "geo"
+            return True
+        return False
+    json_selftest = core.binding_selftest(ctx, "TraceJson.tla", "TraceJson.cfg", jfiles[0], flipcls, prop, "the class of one detection is logged wrongly")
     tviol, tdrift = _trace_violations(ctx, results, prop)
     violations = [x for x in rep["violations"] if x["property"] == prop] + tviol
     wcov = {}
     _wide(ctx, prop, violations, wcov, quick)
     cov = dict(
+        json_binding_selftest=json_selftest,
         wide_documents=wcov["wide_documents"],
         evaluations=rep["evaluations"] + trep["evaluations"],
         vectors_replayed=rep["extra"]["vectors"],
@@ -203,27 +250,30 @@ def run_bombs(ctx, cases, workers):
     exe = ctx.build_harness()
 
     def run(case):
-        prefix = ""
+        prefix, warm = "", False
+        if len(case) == 7:
+            warm = case[6]
+            case = case[:6]
         if len(case) == 6:
             prefix = case[5]
             case = case[:5]
         shape, n, closed, lim, entry = case
-        cmd = [exe, "bomb", "-prefix", prefix, "-shape", shape, "-n", str(n), "-closed=%s" % ("true" if closed else "false"), "-limit", str(lim), "-entry", entry]
+        cmd = [exe, "bomb"] + (["-warm"] if warm else []) + ["-prefix", prefix, "-shape", shape, "-n", str(n), "-closed=%s" % ("true" if closed else "false"), "-limit", str(lim), "-entry", entry]
         try:
             p = subprocess.run(cmd, capture_output=True, text=True, timeout=300)
         except subprocess.TimeoutExpired:
-            return dict(ev="bomb", prefix=prefix, plen=0, shape=shape, n=n, closed=closed, limit=lim, entry=entry, returned=False, maxlvl=0, cls="", parses=0, mime="", wall_ms=300000, died="timeout")
+            return dict(ev="bomb", prefix=prefix, warm=warm, plen=0, shape=shape, n=n, closed=closed, limit=lim, entry=entry, returned=False, maxlvl=0, cls="", parses=0, mime="", wall_ms=300000, died="timeout")
         if p.returncode == 0 and p.stdout.strip():
             return json.loads(p.stdout.strip().splitlines()[-1])
         if p.returncode == 2 and "stack" not in p.stderr and "overflow" not in p.stderr and "signal" not in p.stderr:
             raise core.Infra("bomb driver failed: %s %s" % (cmd, p.stderr[-500:]))
-        return dict(ev="bomb", prefix=prefix, plen=0, shape=shape, n=n, closed=closed, limit=lim, entry=entry, returned=False, maxlvl=0, cls="", parses=0, mime="", wall_ms=0, died=p.stderr[-300:])
+        return dict(ev="bomb", prefix=prefix, warm=warm, plen=0, shape=shape, n=n, closed=closed, limit=lim, entry=entry, returned=False, maxlvl=0, cls="", parses=0, mime="", wall_ms=0, died=p.stderr[-300:])
 
     with concurrent.futures.ThreadPoolExecutor(max_workers=workers) as ex:
         return list(ex.map(run, cases))
 
 
-BOMB_SHAPES = ["arr", "obj", "mixed", "pad", "arrnf", "objnf"]
+BOMB_SHAPES = ["arr", "obj", "mixed", "pad", "arrnf", "objnf", "objsp"]
 
 
 def c16(ctx):
@@ -244,7 +294,7 @@ def c16(ctx):
     ns = [cap - 1, cap, cap + 1, cap + 2, 100000, 1000000] + ([10000000] if quick else [10000000, 50000000])
     cases = []
     for shape in BOMB_SHAPES:
-        ul = {"arr": 1, "obj": 5, "mixed": 6, "pad": 2, "arrnf": 3, "objnf": 12}[shape]
+        ul = {"arr": 1, "obj": 5, "mixed": 6, "pad": 2, "arrnf": 3, "objnf": 12, "objsp": 6}[shape]
         lv = 2 if shape == "mixed" else 1
         for n in ns:
             nn = n // lv if n <= cap + 2 else n
@@ -267,6 +317,10 @@ def c16(ctx):
             for n in (cap + 2, 1000000):
                 cases.append((shape, n, False, 0, "Detect", prefix))
                 cases.append((shape, n, False, 0, "ndjson", prefix))
+        # after a history of short documents on the same pooled scanner state
+        for n in (cap + 2, 1000000):
+            cases.append((shape, n, False, 0, "Detect", "", True))
+            cases.append((shape, n, True, 0, "Detect", "", True))
     if not quick:
         cases.append(("arr", 1000000, True, 4294967295, "DetectReader"))  # 4 GiB buffer, run with the others
     recs = run_bombs(ctx, cases, 4 if not quick else core.NCPU)
@@ -276,6 +330,13 @@ def c16(ctx):
             # TLC integers are 32-bit: a limit of 2^32-1 is written as 2^31-1 (both mean "larger than any input here")
             f.write(json.dumps({k: (min(v, 2147483647) if k == "limit" else v) for k, v in r.items() if k != "died"}) + "\n")
     results = ctx.validate_traces("TraceBomb.tla", "TraceBomb.cfg", [tf])
+
+    def died(rec):
+        if rec.get("returned"):
+            rec["returned"] = False
+            return True
+        return False
+    cov["binding_selftest"] = core.binding_selftest(ctx, "TraceBomb.tla", "TraceBomb.cfg", tf, died, "C16", "one nesting-bomb call is logged as not returned")
     violations = []
     for r in results:
         for t in r["tuples"]:
